@@ -63,17 +63,19 @@ def build(pid, conf):
     overlay = []
     repl = {}
     ov = os.path.join(BUILD, "overlay-" + pid)
+    extra = os.environ.get("VERIF_EXTRA_OVERLAY")
     if conf.get("overlay"):
-        r = sh(["go", "run", "./tools/mkoverlay", "-repo", REPO, "-out", ov], cwd=HARNESS,
+        r = sh(["go", "run", "./tools/mkoverlay", "-repo", REPO, "-out", ov] + (["-extra", extra] if extra else []), cwd=HARNESS,
                stdout=subprocess.PIPE, stderr=subprocess.STDOUT, text=True)
         if r.returncode != 0:
             log("INCONCLUSIVE: overlay generation failed\n" + r.stdout[-3000:])
             return None
         repl.update(json.load(open(os.path.join(ov, "overlay.json")))["Replace"])
-    extra = os.environ.get("VERIF_EXTRA_OVERLAY")
     if extra:
-        # development aid only (never used by registered commands): try a candidate patch without touching /repo
-        repl.update(json.load(open(extra))["Replace"])
+        # development aid only (never used by registered commands): try a candidate patch without touching /repo.
+        # Files that the clock overlay rewrites keep the rewritten copy (which was generated FROM the extra source).
+        for k, v in json.load(open(extra))["Replace"].items():
+            repl.setdefault(k, v)
     if repl:
         os.makedirs(ov, exist_ok=True)
         json.dump({"Replace": repl}, open(os.path.join(ov, "overlay.all.json"), "w"), indent=1)
